@@ -6,6 +6,10 @@ _NOTE = ("Bounded: holds for all values within the bounds recorded in the eviden
 _TECH = "symbolic execution of the real Python code on z3-backed proxy values (BV64/Float64/Real), branch decisions and obligations decided by z3, counterexamples replayed concretely"
 
 CLAIMS = {
+    "C09": {
+        "text": "Bounded symbolic model checking of the real connect()+init() of both generations on a virtual-time loop against a scripted reference console: the silent step (or none), the slot/kind/position of an interleaved extra frame, the connect delay around the 5 s limit, the console's answer delay and (AT4) the group bitmaps are solver-chosen; on every path the six requests must appear in order and one at a time, init must return True with exactly the described ACs/zones/partition, or False at exactly 5 s with initialised false, without exception.",
+        "note": _NOTE, "technique": _TECH, "design_ref": "DESIGN.md section 6 C09",
+    },
     "C07": {
         "text": "Bounded symbolic model checking of the whole real socket on a virtual-time loop against fault scripts: each step is a solver-enumerated choice from {refuse, accept with symbolic latency} x {peer EOF, reset, garbage, bad CRC, truncated frame, undecodable frame, write error, unencodable message queued, raising subscriber, nop}, two steps may land in one loop turn, the user's send instant is a z3 Real; after every script (full alphabet depth <=3 quick / 4 thorough, write-fault and receive-side alphabets deeper) the client must be connected, deliver a probe frame, transmit a probe command, never have held two transports, have closed every abandoned one, and no socket task may have died.",
         "note": _NOTE, "technique": _TECH, "design_ref": "DESIGN.md section 6 C07",
